@@ -337,8 +337,14 @@ func (g *c05Gen) xattrsFor(kind string) [][2]string {
 	return out
 }
 
+// link targets that path.Clean would change: a round trip has to keep them byte for byte
+var c05UncleanTargets = []string{"./f", "sub/", "sub/../f", "sub//g", "sub/.", "a/./b", "../x/", "./", "//", "a/b/../../c", "./.", "../", "x/..", "/abs//path/", "a///"}
+
 func (g *c05Gen) target() string {
 	r := g.r
+	if r.Chance(1, 4) {
+		return c05UncleanTargets[r.Intn(len(c05UncleanTargets))]
+	}
 	switch r.Intn(8) {
 	case 0:
 		return "/etc/passwd"
@@ -631,3 +637,17 @@ func c05Snapshot(root string, keepData bool) ([]*c05Ent, error) {
 
 // c05RemoveAll removes a scratch tree whatever its permission bits are.
 func c05RemoveAll(path string) { os.RemoveAll(path) }
+
+// c05LinkZoo: a directory with one symlink per target that path.Clean would change.
+func (g *c05Gen) linkZoo(name string) *c05Node {
+	d := &c05Node{Name: hex.EncodeToString([]byte(name)), Kind: "dir"}
+	g.attrs(d)
+	d.Xattrs = nil
+	for i, t := range c05UncleanTargets {
+		l := &c05Node{Name: hex.EncodeToString([]byte(fmt.Sprintf("l%02d", i))), Kind: "link", Target: hex.EncodeToString([]byte(t))}
+		g.attrs(l)
+		l.Xattrs = nil
+		d.Children = append(d.Children, l)
+	}
+	return d
+}
